@@ -7,6 +7,9 @@ import (
 	"gopkg.in/yaml.v3"
 )
 
+// maxMeterValue is the largest numerator or denominator a MIDI time signature can carry (the writer takes uint8).
+const maxMeterValue = 255
+
 type Meter struct {
 	util.Rat
 }
@@ -39,6 +42,9 @@ func (m Meter) validate() error {
 	}
 	if m.Num < 1 {
 		return errorx.Invalid("Meter should be positive")
+	}
+	if m.Num > maxMeterValue || m.Denom > maxMeterValue {
+		return errorx.Invalid("Meter should be up to %d/%d", maxMeterValue, maxMeterValue)
 	}
 	return nil
 }
